@@ -10,6 +10,8 @@ from ..lib import FAILED
 from ..runner import Sub
 
 ID = 'C14'
+TECHNIQUE = 'PBT against a reference model written from the statement (rational + mirrored float decisions); atheris in thorough'
+LEVEL_TEXT = 'Exploration: Exact equality on decided cases (78%), structural clauses on ambiguous ones. Finds counter-examples (shrunk to a replay file); never proves absence.'
 RULE = ('Cases = (curve n >= 4 with non-constant x and y; reduction = arbitrary index set containing both '
         'ends with compute_removed_points, or the output of a simplifier; knee positions; tx, ty in '
         '(0, 0.6]; extremes in {False, True}) for add_points_even and add_points_even_knees.  Oracle = '
